@@ -113,7 +113,19 @@ func (g *pgen) mainStmts(depth int, declared map[string]int) []zn.Stmt {
 	n := 1 + g.pick(5, "nstmts")
 	var out []zn.Stmt
 	for i := 0; i < n; i++ {
-		switch g.pick(15, "mk") {
+		switch g.pick(17, "mk") {
+		case 15, 16:
+			// a loop variable that holds a METHOD and is called by its name in the body; the very
+			// same call written again after the loop finds no such name
+			lv := []string{"操", "X", "R"}[g.pick(3, "lvn")]
+			out = append(out, &zn.ForEach{Names: []string{lv}, E: &zn.ListLit{Items: []zn.Expr{&zn.Var{Name: "F1"}, &zn.Var{Name: "F1"}}}, Body: []zn.Stmt{
+				show("lv-call", &zn.Call{Name: lv, Args: []zn.Expr{&zn.Num{Val: 0}}}),
+			}})
+			if g.pick(2, "lv-after") == 0 {
+				out = append(out, show("lv-after", &zn.Call{Name: lv, Args: []zn.Expr{&zn.Num{Val: 0}}}))
+				g.labels["call-through-loop-variable-after-its-loop"] = true
+			}
+			g.labels["call-through-loop-variable"] = true
 		case 13, 14:
 			// 得到 NESTED inside a larger expression (the right side of an assignment, an argument
 			// of a call, a branch condition): the name belongs to the block the statement stands
